@@ -252,6 +252,26 @@ Print Assumptions C09_escaped_slash_refuted.
 
 (* ---- membership at the observation point ---- *)
 
+(* the property's "if and only if", read off the model and off the specification:
+   `p in cb` answers True exactly when p resolves to an existing regular file with a
+   listed extension below (or equal to - see docs) the first containing directory whose
+   root-relative path pathspec does not match; the specification differs in: language
+   table, STRICTLY below, git's ignore test *)
+Theorem C09_contains_iff :
+  forall fs cwd cb s,
+    (contains fs cwd cb s = Ok true <->
+     exists r root ps,
+       resolve fs cwd s = Ok r /\ lookup fs r = Some KFile /\ is_source_file r = true /\
+       find_root (cb_roots cb) r = Some root /\ compile false (cb_lines cb) = CPats ps /\
+       ps_match ps (rel_comps root r) = false) /\
+    (member fs cwd cb s = Ok true <->
+     exists r root ps,
+       resolve fs cwd s = Ok r /\ lookup fs r = Some KFile /\ has_language r = true /\
+       find_root_strict (cb_roots cb) r = Some root /\ compile true (cb_lines cb) = CPats ps /\
+       git_ignored ps (map list_of_string (skipn (length root) r)) = false).
+Proof. intros fs cwd cb s. exact (conj (contains_iff fs cwd cb s) (member_iff fs cwd cb s)). Qed.
+Print Assumptions C09_contains_iff.
+
 (* C09_membership (`in` = the property's definition for every input) is false for the
    same reasons; proved: for every file system, process directory, spelling and code
    base whose lines pathspec accepts and whose directories are directories, `in`
